@@ -38,7 +38,7 @@ def gen_faults(rng, data, bounds=None, framer_name=None, max_faults=3, kinds=Non
     n = len(data)
     if n == 0:
         return [{'k': 'insert', 'at': 0, 'hex': bytes(rng.getrandbits(8) for _ in range(rng.randrange(1, 9))).hex()}]
-    enabled = kinds or ('flip', 'set', 'lenfield', 'trunc', 'drop', 'dup', 'swap', 'insert', 'splice')
+    enabled = kinds or ('flip', 'set', 'lenfield', 'trunc', 'drop', 'dup', 'swap', 'insert', 'splice', 'spanfill')
     count = rng.choice((1, 1, 1, 2, 2, 3)) if max_faults >= 3 else rng.randrange(1, max_faults + 1)
     starts = [0] + list(bounds[:-1]) if bounds else [0]
     candidates = None
@@ -79,6 +79,17 @@ def gen_faults(rng, data, bounds=None, framer_name=None, max_faults=3, kinds=Non
             else:
                 val = rng.getrandbits(8 * size)
             faults.append({'k': 'lenfield', 'at': at, 'size': size, 'val': val % (1 << (8 * size)), 'le': bool(le)})
+        elif kind == 'spanfill':
+            # the content of one length-prefixed value replaced by text of another alphabet / by integer boundary
+            # values, its length (and so every length field) unchanged
+            spans = length_prefixed_spans(data)
+            if spans:
+                start, length = rng.choice(spans)
+                name = rng.choice(sorted(TEXT_FILLS) + ['zero', 'ones'])
+                fill = TEXT_FILLS[name](length) if name in TEXT_FILLS else (b'\x00' if name == 'zero' else b'\xff') * length
+                faults.append({'k': 'token', 'at': start, 'end': start + length, 'hex': fill.hex()})
+            else:
+                faults.append({'k': 'set', 'at': _pos(rng, n, starts), 'val': rng.choice(INTERESTING_BYTES)})
         elif kind == 'trunc':
             faults.append({'k': 'trunc', 'at': _pos(rng, n, starts)})
         elif kind == 'drop':
@@ -176,6 +187,61 @@ def enum_tokens():
                                 tokens.append(token)
         _ENUM_TOKENS = tokens[:3000]
     return _ENUM_TOKENS
+
+
+TEXT_FILLS = {
+    'utf8': lambda n: ('\u00e9' * (n // 2)).encode('utf-8') + b'a' * (n % 2),          # valid UTF-8, not ASCII
+    'cjk': lambda n: ('\u4e2d' * (n // 3)).encode('utf-8') + b'a' * (n % 3),
+    'high': lambda n: b'\xe9' * n,                                                      # not UTF-8
+    'ctrl': lambda n: (b'\x00\x01\x1b\x7f' * n)[:n],
+    'quote': lambda n: (b'"\\\'{}%s' * n)[:n],
+    'lines': lambda n: (b'a\r\nb: ' * n)[:n],
+    'star': lambda n: (b'* #:|`' * n)[:n],
+    'ascii': lambda n: b'A' * n,
+}
+
+
+def length_prefixed_spans(data, limit=48):
+    """[(start, length)] of plausible length-prefixed values: a 4-, 2- or 1-octet big-endian prefix holding exactly
+    a length that fits in what follows (1-octet prefixes only from 4 octets of content on)."""
+    out = []
+    seen = set()
+    for size, minimum in ((4, 1), (2, 2), (1, 4)):
+        for at in range(0, len(data) - size):
+            length = int.from_bytes(data[at:at + size], 'big')
+            start = at + size
+            if minimum <= length <= 600 and start + length <= len(data) and (start, length) not in seen:
+                seen.add((start, length))
+                out.append((start, length))
+                if len(out) >= limit:
+                    return out
+    return out
+
+
+_BYTE_CONSTANTS = None
+
+
+def byte_constants():
+    """Byte strings of 4..64 octets the library itself defines at module or class level (magic values such as the
+    HelloRetryRequest random): values a parser may compare against and treat specially."""
+    global _BYTE_CONSTANTS  # pylint: disable=global-statement
+    if _BYTE_CONSTANTS is None:
+        import sys
+        found = []
+        for name in sorted(sys.modules):
+            if not name.startswith('cryptoparser.'):
+                continue
+            module = sys.modules[name]
+            holders = [module] + [obj for _, obj in sorted(vars(module).items())
+                                  if isinstance(obj, type) and obj.__module__ == name]
+            for holder in holders:
+                for attr_name in sorted(vars(holder)):
+                    value = vars(holder)[attr_name]
+                    if isinstance(value, (bytes, bytearray)) and 4 <= len(value) <= 64 and not attr_name.startswith('__'):
+                        if bytes(value) not in found:
+                            found.append(bytes(value))
+        _BYTE_CONSTANTS = found[:64]
+    return _BYTE_CONSTANTS
 
 
 _NAME_ENUMS = None
